@@ -186,6 +186,16 @@ pub fn finding_cases() -> Vec<(&'static str, &'static str, &'static str, Case)> 
         },
     ));
     v.push((
+        "json-selector-on-default",
+        "json-selector-on-default-sql-syntax",
+        "sel: j_d->$ on a Json field with a default is a SQL syntax error (Ifnull( is never closed)",
+        {
+            let mut c = full(Ty::Json, Variant::Def, Val::J(JVal::Arr(vec![JVal::Int(2)])), How::Param);
+            c.default = Val::J(JVal::Arr(vec![JVal::Int(1)]));
+            c
+        },
+    ));
+    v.push((
         "bool-default-as-integer",
         "bool-default-returned-as-integer",
         "rows older than a Boolean field with a default return 1/0 instead of true/false",
